@@ -38,9 +38,23 @@ class RecB(RecA):
 _CLS = {2: RecA, 3: RecB}
 
 
+# identifiers in suffix / prefix / substring relation to each other (members 900..)
+FAMILY = ["a1", "ba1", "cba1", "a1b", "1a", "a", "x1y", "1", "ba", "b"]
+
+
+def member_name(m):
+    return FAMILY[m - 900] if m >= 900 else f"r{m:03d}"
+
+
 def member_index(name):
-    """'…/r007.txt' -> 7"""
-    m = re.search(r"r(\d+)", str(name).split("/")[-1])
+    """'…/r007.txt' -> 7 ; '…/ba1.txt' -> 901"""
+    base = str(name).split("/")[-1]
+    for ext in (".txt", ".json"):
+        if base.endswith(ext):
+            base = base[: -len(ext)]
+    if base in FAMILY:
+        return 900 + FAMILY.index(base)
+    m = re.fullmatch(r"r(\d+)", base)
     return int(m.group(1)) if m else None
 
 
